@@ -241,6 +241,24 @@ func main() {
 			os.Exit(1)
 		}
 	}
+	fb, err := fallback(*repo)
+	if err != nil {
+		fmt.Fprintln(os.Stderr, err)
+		os.Exit(1)
+	}
+	if err := os.WriteFile(filepath.Join(*out, "Fallback.v"), []byte(fb), 0o644); err != nil {
+		fmt.Fprintln(os.Stderr, err)
+		os.Exit(1)
+	}
+	fu, err := filterUse(*repo)
+	if err != nil {
+		fmt.Fprintln(os.Stderr, err)
+		os.Exit(1)
+	}
+	if err := os.WriteFile(filepath.Join(*out, "FilterUse.v"), []byte(fu), 0o644); err != nil {
+		fmt.Fprintln(os.Stderr, err)
+		os.Exit(1)
+	}
 	l, err := lifecycles(*repo)
 	if err != nil {
 		fmt.Fprintln(os.Stderr, err)
